@@ -115,10 +115,83 @@ let run (input : string) : string =
       "low=" ^ hex_of_bytes (lowercase lo s);
     ]
 
+(* ---- iterator protocol stream: "iter s=<hex> h=<ops> | steps=<restlen:state:clusterlen:newstate,..>"
+   gstep (the model's oracle for uniseg.FirstGraphemeClusterInString) := the table of steps the
+   harness recorded on the fresh run from (s, -1); anything else (never asked by the model on a
+   table that is a complete fresh run) takes the whole rest as one cluster. *)
+open C20_Iter
+
+let rec nat_of_int i = if i <= 0 then Datatypes.O else Datatypes.S (nat_of_int (i - 1))
+
+let rec take_l n l = if n <= 0 then [] else match l with [] -> [] | x :: t -> x :: take_l (n - 1) t
+let rec drop_l n l = if n <= 0 then l else match l with [] -> [] | _ :: t -> drop_l (n - 1) t
+
+let parse_steps (s : string) : ((int * int) * (int * int)) list =
+  Stdlib.List.map
+    (fun e ->
+      match String.split_on_char ':' e with
+      | [ a; b; c; d ] -> ((int_of_string a, int_of_string b), (int_of_string c, int_of_string d))
+      | _ -> failwith ("step " ^ e))
+    (split_nonempty ',' s)
+
+let parse_op (o : string) : ikind pop =
+  match o with
+  | "c" -> PNew KChar
+  | "b" -> PNew KByte
+  | "g" -> PNew KGr
+  | _ -> (
+      let i = nat_of_int (int_of_string (String.sub o 1 (String.length o - 1))) in
+      match o.[0] with
+      | 'n' -> PNext i
+      | 'r' -> PReset i
+      | 'y' -> PCopy i
+      | 'd' -> PDrain i
+      | _ -> failwith ("op " ^ o))
+
+let show_elem = function
+  | EChar c -> string_of_int (int_of_z c)
+  | EByte b -> string_of_int (int_of_z b)
+  | EStr g -> hex_of_bytes g
+
+let show_pout = function QElem a -> show_elem a | QStop -> "stop" | QUnit -> "-" | QBad -> "bad"
+
+let run_iter (input : string) : string =
+  let base, orc =
+    match String.index_opt input '|' with
+    | Some i -> (String.sub input 0 i, String.sub input (i + 1) (String.length input - i - 1))
+    | None -> (input, "")
+  in
+  let kv = parse_kvs base and okv = parse_kvs orc in
+  let s = bytes_of_hex (field kv "s") in
+  let h = Stdlib.List.map parse_op (split_nonempty ',' (field kv "h")) in
+  let tbl = parse_steps (field okv "steps") in
+  let gstep (rest : coq_Z list) (q : coq_Z) =
+    match Stdlib.List.assoc_opt (Stdlib.List.length rest, int_of_z q) tbl with
+    | Some (cl, nq) -> ((take_l cl rest, drop_l cl rest), z_of_small nq)
+    | None -> ((rest, []), q)
+  in
+  let outs = iter_run gstep s h in
+  let gseg = gseg_of gstep in
+  let ats n f = String.concat "," (Stdlib.List.init n (fun i -> f (z_of_small i))) in
+  let strip o = if String.length o > 3 && String.sub o 0 3 = "ok:" then String.sub o 3 (String.length o - 3) else o in
+  let nc = int_of_z (char_count s) and nb = int_of_z (byte_count s) and ng = int_of_z (grapheme_count gseg s) in
+  String.concat "|"
+    [
+      "out=" ^ String.concat ";" (Stdlib.List.map (fun l -> String.concat "," (Stdlib.List.map show_pout l)) outs);
+      "len=" ^ string_of_int nc;
+      "blen=" ^ string_of_int nb;
+      "glen=" ^ string_of_int ng;
+      "cats=" ^ ats nc (fun i -> strip (show_outcome (fun z -> string_of_int (int_of_z z)) (char_at s i)));
+      "bats=" ^ ats nb (fun i -> strip (show_outcome (fun z -> string_of_int (int_of_z z)) (byte_at s i)));
+      "gats=" ^ ats ng (fun i -> strip (show_outcome hex_of_bytes (grapheme_at gseg s i)));
+    ]
+
+let is_iter (input : string) = String.length input >= 5 && String.sub input 0 5 = "iter "
+
 let () =
   Zio.iter_lines (fun line ->
       match Zio.split_tab line with
       | id :: input :: _ -> (
-          try print_string (id ^ "\t" ^ run input ^ "\n")
+          try print_string (id ^ "\t" ^ (if is_iter input then run_iter input else run input) ^ "\n")
           with e -> print_string (id ^ "\tdriver-error " ^ Printexc.to_string e ^ "\n"))
       | _ -> ())
